@@ -269,12 +269,10 @@ impl Request {
     }
 
     pub fn parse_http_request_header_string(header_string: &str) -> Header {
-        let header_parts: Vec<&str> = header_string.split(Header::NAME_VALUE_SEPARATOR).collect();
-        let header_name = StringExt::truncate_new_line_carriage_return(header_parts[0]);
-        let mut header_value= "".to_string();
-        if header_parts.get(1).is_some() {
-            header_value = StringExt::truncate_new_line_carriage_return(header_parts[1]);
-        }
+        let boxed_split = header_string.split_once(Header::NAME_VALUE_SEPARATOR);
+        let (raw_name, raw_value) = if boxed_split.is_some() { boxed_split.unwrap() } else { (header_string, "") };
+        let header_name = StringExt::truncate_new_line_carriage_return(raw_name);
+        let header_value = StringExt::truncate_new_line_carriage_return(raw_value);
 
         Header {
             name: header_name,
@@ -315,20 +313,24 @@ impl Request {
         }
 
         if new_line_char_found && !current_string_is_empty {
-            let mut header = Header { name: "".to_string(), value: "".to_string() };
             if !is_first_iteration {
-                header = Request::parse_http_request_header_string(&string);
+                let header = Request::parse_http_request_header_string(&string);
                 if header.name == Header::_CONTENT_LENGTH {
-                    content_length = header.value.parse().unwrap();
+                    let boxed_content_length = header.value.parse();
+                    if boxed_content_length.is_err() {
+                        return Err(format!("unable to parse {} header value: {}", Header::_CONTENT_LENGTH, header.value));
+                    }
+                    content_length = boxed_content_length.unwrap();
                 }
+                request.headers.push(header);
             }
 
-            request.headers.push(header);
             iteration_number += 1;
             let boxed_read = Request::cursor_read(cursor, iteration_number, request, content_length);
             if boxed_read.is_err() {
                 let reason = boxed_read.err().unwrap().to_string();
                 eprintln!("unable to read request: {}", reason);
+                return Err(reason);
             }
         }
 
